@@ -31,6 +31,7 @@ RULE = (
 RULE += (" " + "(4c) the {regex} slot that every string template offers (field-bound, case-sensitive and unbound templates): strings up to length 3/4 over (backslash, '*', '?', a letter, the regex-literal delimiter), delimiter in {double quote, slash}, protected either by add_escaped_re or by re_escape; the literal is decoded by the target's rules, must end exactly at the closing delimiter and must match exactly the subjects (all strings up to length 3) the glob pattern matches.")
 RULE += (" Long strings: every interesting unit inside / before / after plain runs of 31..1025 characters for every configuration; random strings include runs of 40 and 70 plain characters.")
 RULE += (" Every string up to length 3 is additionally rendered as member of a two-element value list on an OR-as-in backend (with and without wildcards allowed in lists) and the list member is decoded like the single literal.")
+RULE += (" After a rendering the same value object is rendered by a backend with another string syntax and by the first one again; both must equal the rendering of a fresh value.")
 ASSUMPTIONS = [
     "vf/ref/strings.py is the Sigma string syntax; glob semantics '*' any run, '?' one character",
     "python's re module defines regular-expression matching; subjects contain no newline",
@@ -151,8 +152,9 @@ def check_case(case: dict) -> Outcome:
         out.nontrivial = _interesting(s)
         want = tuple(t for t in rs.parse(s) if not (isinstance(t, tuple) and t[1] in filt))
         unsupported = (wm is None and "*" in rs.parse(s)) or (ws is None and "?" in rs.parse(s))
+        value_obj = SigmaString(s)
         try:
-            text = _backend(cfg).convert_value_str(SigmaString(s), ConversionState())
+            text = _backend(cfg).convert_value_str(value_obj, ConversionState())
         except SigmaError:
             if not unsupported:
                 out.fail("C05:render:rejected", f"cfg={cfg}: {s!r} rejected although every part is supported")
@@ -171,6 +173,21 @@ def check_case(case: dict) -> Outcome:
             out.fail("C05:render:literal-terminated-early", f"cfg={cfg}: {s!r} rendered {text!r}: literal ends at {end} of {len(text)}")
         elif got != want:
             out.fail("C05:render:tokens", f"cfg={cfg}: {s!r} rendered {text!r} decodes to {got}, expected {want}")
+        else:
+            # the same value object rendered by a backend with another string syntax, then by the first one again:
+            # a rendering belongs to the backend configuration, not to the value
+            cfg2 = CONFIGS[(CONFIGS.index(cfg) + 1 + len(s)) % len(CONFIGS)] if cfg in CONFIGS else CONFIGS[0]
+
+            def rend(c, v):
+                try:
+                    return _backend(c).convert_value_str(v, ConversionState())
+                except SigmaError as e:
+                    return "error:" + type(e).__name__
+            for c, fresh in ((cfg2, rend(cfg2, SigmaString(s))), (cfg, text)):
+                again = rend(c, value_obj)
+                if again != fresh:
+                    out.fail("C05:render:same-value-object-other-backend", f"{s!r}: first rendered with cfg={cfg}, then the same object with cfg={c}: {again!r}, a fresh value gives {fresh!r}")
+                    break
         return out
     if kind == "render_list":
         # the same literal inside an in-expression (value list of one field, OR-as-in backend)
